@@ -118,6 +118,9 @@ func (w *reqResWriter) newFragment(initial bool, checksum Checksum) (*writableFr
 	// Create the frame
 	frame := w.conn.opts.FramePool.Get()
 	frame.Header.ID = w.mex.msgID
+	// A pooled frame keeps the header of whatever it carried last, including the
+	// reserved byte of a frame read from some peer.
+	frame.Header.reserved1 = 0
 	frame.Header.messageType = message.messageType()
 
 	// Write the message into the fragment, reserving flags and checksum bytes
